@@ -11,6 +11,7 @@ import (
 	"strconv"
 	"sync"
 	"syscall"
+	"time"
 )
 
 // Behaviour of one path.
@@ -85,6 +86,11 @@ func (s *Server) handle(w http.ResponseWriter, r *http.Request) {
 		http.Error(w, "not found", 404)
 		return
 	}
+	// what servers of CAs send with CRLs and OCSP responses (RFC 5019 section 6): nothing of it is signed, nothing of it says how
+	// long a status may be relied upon
+	w.Header().Set("Cache-Control", "max-age=604800, public, no-transform, must-revalidate")
+	w.Header().Set("Expires", time.Now().Add(7*24*time.Hour).UTC().Format(http.TimeFormat))
+	w.Header().Set("Last-Modified", time.Now().Add(-time.Hour).UTC().Format(http.TimeFormat))
 	switch b.Kind {
 	case "body":
 		// like any static file server: an entity tag, and 304 for a conditional request that names it
